@@ -34,9 +34,21 @@ def check_w1(chk, m):
     fd, gd = grammars(chk, m, "rf_wavheader_decode", "decode")
     table, total = wav.field_table(m)
 
+    # a guard one function alone has, with the same outcome on every path that succeeds, decides nothing about the walk: its other
+    # side only leaves with an error (the decoder's "extension longer than 16 bits can say" filter); what such filters reject is
+    # W8's subject, not the walk's
+    def outcomes(gs):
+        o = {}
+        for guards in gs:
+            for g, t in guards:
+                o.setdefault(g, set()).add(t)
+        return o
+    oe, od = outcomes(ge), outcomes(gd)
+    filters = set(g for g, ts in oe.items() if g not in od and len(ts) == 1) | set(g for g, ts in od.items() if g not in oe and len(ts) == 1)
+
     def simplify(guards):
         # the decoder peeks a chunk id and asks whether it is 'fact'; the encoder asks whether fact_chunk_id is
-        return tuple(sorted((g, t) for g, t in guards if not g.startswith("?")))
+        return tuple(sorted((g, t) for g, t in guards if not g.startswith("?") and g not in filters))
     E = {}
     for g, lst in ge.items():
         E.setdefault(simplify(g), []).extend(lst)
